@@ -3,6 +3,8 @@ package core
 import (
 	"fmt"
 
+	"github.com/jsightapi/jsight-schema-go-library/bytes"
+
 	"github.com/jsightapi/jsight-api-go-library/catalog"
 	"github.com/jsightapi/jsight-api-go-library/directive"
 	"github.com/jsightapi/jsight-api-go-library/jerr"
@@ -43,7 +45,9 @@ func (core *JApiCore) drainCurrentScanner() *jerr.JApiError {
 		}
 
 		if isIncludeKeyword(lexeme) {
-			je = core.processInclude(lexeme)
+			if je = core.checkDirectiveIsAllowed(directive.Include, lexeme.Begin()); je == nil {
+				je = core.processInclude(lexeme)
+			}
 		} else {
 			je = core.next(*lexeme)
 		}
@@ -185,11 +189,25 @@ func (core *JApiCore) setCurrentDirective(keyword string, keywordCoords directiv
 		return core.japiError(fmt.Sprintf("unknown directive %q", keyword), keywordCoords.Begin())
 	}
 
+	if je := core.checkDirectiveIsAllowed(de, keywordCoords.Begin()); je != nil {
+		return je
+	}
+
 	d := directive.NewWithCallStack(de, keywordCoords, core.scannersStack.ToDirectiveIncludeTracer())
 	d.Keyword = keyword
 
 	core.currentDirective = d
 
+	return nil
+}
+
+// checkDirectiveIsAllowed refuses a banned directive as soon as its keyword is
+// met: before an included file is read, and before MACRO and PASTE directives
+// disappear from the directive list.
+func (core *JApiCore) checkDirectiveIsAllowed(de directive.Enumeration, at bytes.Index) *jerr.JApiError {
+	if _, ok := core.bannedDirectives[de]; ok {
+		return core.japiError(fmt.Sprintf("%s (%s)", jerr.DirectiveNotAllowed, de.String()), at)
+	}
 	return nil
 }
 
